@@ -40,10 +40,24 @@ TH(tr) == tr.scen = "slowhandler" =>
             /\ Idx(tr, "HErr") = {} /\ Idx(tr, "Abort") = {}
             /\ \E i \in Idx(tr, "HRead") : tr.ev[i].n = tr.want /\ tr.ev[i].t >= tr.T
 
+\* TN: a nested route list (subroute) is a matching phase of its own: it ends by ITS timeout, counted from the moment the
+\*     outer route's handlers ran - not earlier, and not later than that plus slack (a deadline that is not re-armed
+\*     leaves the connection to the idle timeout)
+TN(tr) == tr.scen = "nested" =>
+            LET h == FirstOf(tr, {"Handle"}) IN
+            /\ h <= Len(tr.ev)
+            \* (the nested list reports its abort through a logger of its own; what is observed is the connection / the
+            \*  UDP association being closed when the handler chain comes back)
+            /\ \E i \in Idx(tr, "Closed") : /\ i > h
+                                            /\ tr.ev[i].t >= tr.ev[h].t + tr.T - tr.eps
+                                            /\ tr.ev[i].t <= tr.ev[h].t + tr.T + tr.slack
+            /\ \A i \in Idx(tr, "Closed") : tr.ev[i].t >= tr.ev[h].t + tr.T - tr.eps
+
 TimedViolations(tr) ==
   (IF TE(tr) THEN {} ELSE {"TE matching abandoned before the timeout elapsed"})
   \cup (IF TL(tr) THEN {} ELSE {"TL matching not ended by timeout + slack"})
   \cup (IF TC(tr) THEN {} ELSE {"TC a handler ran after matching was abandoned, or the connection was not closed"})
   \cup (IF TB(tr) THEN {} ELSE {"TB more than limit+chunk-1 bytes buffered during matching"})
+  \cup (IF TN(tr) THEN {} ELSE {"TN the matching phase of a nested route list did not end by its own timeout (early, late or never)"})
   \cup (IF TH(tr) THEN {} ELSE {"TH the matching deadline interrupted the handler of a matched route"})
 =============================================================================
